@@ -93,7 +93,7 @@ def cliOp (args impl : List String) : Option (String × String) := do
         else if wantErr ≠ specErr then "FAIL model-exit-differs-from-spec"
         else if (out "banner" = "fail") ≠ specErr then "FAIL banner-differs-from-verdict"
         else if (get "combine") = some "1" ∧ ¬setupFailed ∧
-            n "later" ≠ (truth.getD 0 0) + (if (get "failkind") = some "errorf" ∨ (get "failkind") = some "timeerr" then truth.getD 1 0 else 0) then
+            n "later" ≠ (truth.getD 0 0) + (if (get "failkind") = some "errorf" ∨ (get "failkind") = some "timeerr" ∨ (get "failkind") = some "errunhash" then truth.getD 1 0 else 0) then
           "FAIL later-component-of-a-combined-scenario-did-not-run-exactly-when-the-earlier-one-did-not-stop"
         else if out "envAfter" = "dirty" then "FAIL stage-parameters-remain-set-after-the-run"
         else if n "leak" > 0 then "FAIL goroutine-remains-after-the-command-returned"
@@ -101,6 +101,9 @@ def cliOp (args impl : List String) : Option (String × String) := do
         else if ((get "pushgw") = some "ok" ∨ (get "pushgw") = some "fail1") ∧ (triple "pushed").length = 4 ∧
             (triple "pushed").getD 3 0 > 0 ∧ (triple "pushed").take 3 ≠ stats then
           "FAIL pushed-metrics-differ-from-the-result"
+        else if (match (get "sigint").bind String.toInt? with
+            | some sg => decide (n "ret" > sg + ((get "bodyms").bind String.toInt?).getD 0 + 1500) | none => false) then
+          "FAIL interrupted-command-kept-running"
         else if (match (get "retmax").bind String.toInt? with | some m => decide (n "ret" > m) | none => false) then
           "FAIL command-did-not-return-once-its-run-was-over"
         else
